@@ -48,6 +48,7 @@ type FuncV struct {
 	Fn   *ssa.Function
 	Bind []Value
 	B    *ssa.Builtin
+	N    func(in *Interp, args []Value) Value // closure implemented by a library model
 }
 
 type MapV struct{ H int }  // 0 = nil map
@@ -123,6 +124,7 @@ type Base struct {
 	poisoned   map[int]string
 	onceDone   map[Ptr]bool
 	atomicVals map[Ptr]Value
+	syncMaps   map[Ptr]*MapObj
 }
 
 const boxTag = uint64(0x4000000000000000)
@@ -255,11 +257,14 @@ func fmtValue(v Value) string {
 		sb.WriteString("]")
 		return sb.String()
 	case *FuncV:
-		if x == nil || (x.Fn == nil && x.B == nil) {
+		if x == nil || (x.Fn == nil && x.B == nil && x.N == nil) {
 			return "func(nil)"
 		}
 		if x.Fn != nil {
 			return "func(" + x.Fn.String() + ")"
+		}
+		if x.N != nil {
+			return "func(model)"
 		}
 		return "builtin(" + x.B.Name() + ")"
 	case MapV:
